@@ -15,12 +15,20 @@ def fmtTok : Tok → String
   | .arr n => s!"*{n}"
   | .nullArr => "*N"
 
+/-- the part of INFO's text that is compared: the `# Keyspace` section up to the average TTL (which
+    depends on the server's own reading of the clock) -/
+def cutAvgTtl : Bytes → Bytes
+  | [] => []
+  | b :: rest =>
+    if (b :: rest).take 9 = Bytes.ofString ",avg_ttl=" then [] else b :: cutAvgTtl rest
+
 def pairUp : List String → List String
   | a :: b :: r => (a ++ " " ++ b) :: pairUp r
   | _ => []
 
 /-- same canonicalisation as the harness: replies whose pair order comes out of a Go map -/
 def canonical (name : String) (ts : List Tok) : List String :=
+  let ts := if name == "INFO" then ts.map (fun t => match t with | .bulk b => .bulk (cutAvgTtl b) | t => t) else ts
   let out := ts.map fmtTok
   let at? : Option Nat := if name == "HGETALL" then some 0 else if name == "HSCAN" then some 2 else none
   match at? with
